@@ -308,3 +308,930 @@ Qed.
 
 Lemma noof_ret {A} (v : A) (l : list byte) : pret v l <> OutOfFuel.
 Proof. discriminate. Qed.
+
+Lemma pread_inv k l a n l1 :
+  pread take_rf k l = Ok (a, n, l1) ->
+  n = k /\ (k <= length l)%nat /\ a = firstn k l /\ l1 = skipn k l.
+Proof.
+  unfold pread, take_rf. destruct (Nat.leb k (length l)) eqn:E; [|discriminate].
+  intros Heq. injection Heq as <- <- <-. apply Nat.leb_le in E. repeat split. exact E.
+Qed.
+
+(** * The pointer forest *)
+Section PtreeInd.
+  Variable P : ptree -> Prop.
+  Hypothesis Hnone : forall d lf, P (PNode d lf None).
+  Hypothesis Hsome : forall d lf l r, P l -> P r -> P (PNode d lf (Some (l, r))).
+  Fixpoint ptree_ind2 (t : ptree) : P t :=
+    match t with
+    | PNode d lf None => Hnone d lf
+    | PNode d lf (Some (l, r)) => Hsome d lf l r (ptree_ind2 l) (ptree_ind2 r)
+    end.
+End PtreeInd.
+
+Lemma flag_b2n b : flag_is1 [b2n b] = b.
+Proof. destruct b; reflexivity. Qed.
+
+Lemma enc_ptree_length t : wf_ptree t -> length (enc_ptree t) = (34 * ptree_count t)%nat.
+Proof.
+  induction t as [d lf|d lf l r IHl IHr] using ptree_ind2; cbn [wf_ptree enc_ptree ptree_count].
+  - intros [Hd _]. rewrite !app_length, Hd. reflexivity.
+  - intros [Hd [Hl Hr]]. rewrite !app_length, Hd, IHl, IHr by assumption. cbn [length]. lia.
+Qed.
+
+Lemma ptree_count_pos t : (1 <= ptree_count t)%nat.
+Proof. destruct t as [d lf [[l r]|]]; cbn [ptree_count]; lia. Qed.
+
+Lemma ptree_height_count t : (ptree_height t < ptree_count t)%nat.
+Proof.
+  induction t as [d lf|d lf l r IHl IHr] using ptree_ind2; cbn [ptree_height ptree_count]; lia.
+Qed.
+
+Lemma wf_ptreeb_sound t : wf_ptreeb t = true -> wf_ptree t.
+Proof.
+  induction t as [d lf|d lf l r IHl IHr] using ptree_ind2; cbn [wf_ptreeb wf_ptree]; intros Hb.
+  - apply andb_true_iff in Hb as [Hd _]. apply Nat.eqb_eq in Hd. split; [exact Hd|exact I].
+  - apply andb_true_iff in Hb as [Hd Hb]. apply andb_true_iff in Hb as [Hl Hr].
+    apply Nat.eqb_eq in Hd. split; [exact Hd|]. split; [apply IHl; exact Hl|apply IHr; exact Hr].
+Qed.
+
+Lemma codec_read_one t :
+  wf_ptree t -> forall fuel, (ptree_height t < fuel)%nat ->
+  codec (read_one take_rf fuel) (enc_ptree t) t.
+Proof.
+  induction t as [d lf|d lf l r IHl IHr] using ptree_ind2;
+    cbn [wf_ptree ptree_height]; intros Hwf fuel Hfuel;
+    (destruct fuel as [|f]; [lia|]); cbn [read_one enc_ptree].
+  - destruct Hwf as [Hd _].
+    apply codec_bind with (v1 := d); [apply codec_read; exact Hd|].
+    apply codec_bind with (v1 := [b2n lf]); [apply codec_read; reflexivity|].
+    apply codec_eq with (e' := [0] ++ []); [reflexivity|].
+    apply codec_bind with (v1 := [0]); [apply codec_read; reflexivity|].
+    cbv beta. change (flag_is1 [0]) with false. cbv iota. rewrite flag_b2n. apply codec_ret.
+  - destruct Hwf as [Hd [Hl Hr]].
+    apply codec_bind with (v1 := d); [apply codec_read; exact Hd|].
+    apply codec_bind with (v1 := [b2n lf]); [apply codec_read; reflexivity|].
+    apply codec_bind with (v1 := [1]); [apply codec_read; reflexivity|].
+    cbv beta. change (flag_is1 [1]) with true. cbv iota. rewrite flag_b2n.
+    apply codec_bind with (v1 := l); [apply IHl; [exact Hl|lia]|].
+    apply codec_eq with (e' := enc_ptree r ++ []); [symmetry; apply app_nil_r|].
+    apply codec_bind with (v1 := r); [apply IHr; [exact Hr|lia]|].
+    apply codec_ret.
+Qed.
+
+Lemma codec_read_roots ts fuel :
+  Forall wf_ptree ts -> Forall (fun t => (ptree_height t < fuel)%nat) ts ->
+  codec (read_roots take_rf fuel (length ts)) (enc_roots ts) ts.
+Proof.
+  induction ts as [|t ts IH]; intros Hwf Hh; cbn [length read_roots].
+  - apply codec_ret.
+  - inversion Hwf as [|? ? Hwt Hwts]; subst. inversion Hh as [|? ? Hht Hhts]; subst.
+    unfold enc_roots. cbn [flat_map]. fold (enc_roots ts).
+    apply codec_bind with (v1 := t); [apply codec_read_one; assumption|].
+    apply codec_eq with (e' := enc_roots ts ++ []); [symmetry; apply app_nil_r|].
+    apply codec_bind with (v1 := ts); [apply IH; assumption|].
+    apply codec_ret.
+Qed.
+
+Lemma codec_pollard_parser img fuel :
+  wf_pimage img -> Forall (fun t => (ptree_height t < fuel)%nat) (p_roots img) ->
+  codec (pollard_parser take_rf fuel) (encode_pollard img) img.
+Proof.
+  intros (Hnl & Hnd & _ & Hlen & Hwf & _) Hh.
+  unfold pollard_parser, encode_pollard.
+  apply codec_bind with (v1 := u64le (p_numleaves img)); [apply codec_read, u64le_length|].
+  apply codec_bind with (v1 := u64le (p_numdels img)); [apply codec_read, u64le_length|].
+  apply codec_eq with (e' := enc_roots (p_roots img) ++ []); [symmetry; apply app_nil_r|].
+  rewrite !le_value_u64le by lia. rewrite <- Hlen.
+  apply codec_bind with (v1 := p_roots img); [apply codec_read_roots; assumption|].
+  destruct img as [nl nd ts]. apply codec_ret.
+Qed.
+
+Lemma sub64_small x y : y <= x -> x < 2 ^ 64 -> sub64 x y = x - y.
+Proof.
+  intros Hy Hx. unfold sub64, wrap, W.
+  replace (x + 2 ^ 64 - y) with ((x - y) + 1 * 2 ^ 64) by lia.
+  rewrite N.mod_add by discriminate. apply N.mod_small. lia.
+Qed.
+
+Lemma pollard_check_wf img : wf_pimage img -> pollard_check img = true.
+Proof.
+  intros (Hnl & Hnd & Hint & _ & _ & Hcnt). unfold pollard_check.
+  rewrite sub64_small by assumption. rewrite Hcnt.
+  apply andb_true_iff. split; [apply N.ltb_lt; exact Hint|apply N.eqb_refl].
+Qed.
+
+Lemma enc_roots_length ts :
+  Forall wf_ptree ts ->
+  length (enc_roots ts) = (34 * fold_right (fun t acc => ptree_count t + acc) 0 ts)%nat.
+Proof.
+  induction 1 as [|t ts Ht Hts IH]; [reflexivity|].
+  unfold enc_roots in *. cbn [flat_map fold_right].
+  rewrite app_length, IH, enc_ptree_length by exact Ht. lia.
+Qed.
+
+Theorem size_predicted_proof img :
+  wf_pimage img ->
+  length (encode_pollard img) = (16 + 34 * node_count img)%nat /\
+  serialize_size img = length (encode_pollard img).
+Proof.
+  intros (_ & _ & _ & _ & Hwf & _). unfold encode_pollard, serialize_size, node_count.
+  rewrite !app_length, !u64le_length, enc_roots_length by exact Hwf. lia.
+Qed.
+
+Lemma heights_bound img :
+  wf_pimage img ->
+  Forall (fun t => (ptree_height t < S (length (encode_pollard img)))%nat) (p_roots img).
+Proof.
+  intros Hwf. destruct (size_predicted_proof img Hwf) as [Hlen _]. rewrite Hlen.
+  destruct Hwf as (_ & _ & _ & _ & Hwf & _). unfold node_count.
+  induction Hwf as [|t ts Ht Hts IH]; constructor.
+  - cbn [fold_right]. pose proof (ptree_height_count t). lia.
+  - cbn [fold_right]. eapply Forall_impl; [|exact IH]. cbv beta. intros a Ha. lia.
+Qed.
+
+(** T1 *)
+Theorem pollard_roundtrip_proof img :
+  wf_pimage img ->
+  decode_pollard (encode_pollard img) = Ok (img, length (encode_pollard img)).
+Proof.
+  intros Hwf. unfold decode_pollard, decode_pollard_gen.
+  destruct (codec_pollard_parser img _ Hwf (heights_bound img Hwf)) as [Hp _].
+  specialize (Hp []). rewrite app_nil_r in Hp. rewrite Hp.
+  now rewrite pollard_check_wf.
+Qed.
+
+(** ** Byte counts and fuel *)
+Lemma shrinks_read_one fuel : shrinks (read_one take_rf fuel).
+Proof.
+  induction fuel as [|f IH]; cbn [read_one].
+  - intros l a n l' Heq. discriminate.
+  - apply shrinks_bind; [apply shrinks_read|]. intros d.
+    apply shrinks_bind; [apply shrinks_read|]. intros b1.
+    apply shrinks_bind; [apply shrinks_read|]. intros b2.
+    destruct (flag_is1 b2); [|apply shrinks_ret].
+    apply shrinks_bind; [exact IH|]. intros l.
+    apply shrinks_bind; [exact IH|]. intros r. apply shrinks_ret.
+Qed.
+
+Lemma shrinks_read_roots fuel k : shrinks (read_roots take_rf fuel k).
+Proof.
+  induction k as [|k IH]; cbn [read_roots]; [apply shrinks_ret|].
+  apply shrinks_bind; [apply shrinks_read_one|]. intros t.
+  apply shrinks_bind; [exact IH|]. intros ts. apply shrinks_ret.
+Qed.
+
+Lemma shrinks_pollard_parser fuel : shrinks (pollard_parser take_rf fuel).
+Proof.
+  unfold pollard_parser.
+  apply shrinks_bind; [apply shrinks_read|]. intros b1.
+  apply shrinks_bind; [apply shrinks_read|]. intros b2.
+  apply shrinks_bind; [apply shrinks_read_roots|]. intros ts. apply shrinks_ret.
+Qed.
+
+Lemma noof_read_one fuel l : (length l < fuel)%nat -> read_one take_rf fuel l <> OutOfFuel.
+Proof.
+  revert l; induction fuel as [|f IH]; intros l Hl; [lia|]. cbn [read_one].
+  apply noof_bind; [apply noof_read|]. intros d n1 l1 E1.
+  apply pread_inv in E1 as (_ & Hk1 & _ & ->).
+  apply noof_bind; [apply noof_read|]. intros b1 n2 l2 E2.
+  apply pread_inv in E2 as (_ & Hk2 & _ & ->).
+  apply noof_bind; [apply noof_read|]. intros b2 n3 l3 E3.
+  apply pread_inv in E3 as (_ & Hk3 & _ & ->).
+  rewrite !skipn_length in *.
+  destruct (flag_is1 b2); [|apply noof_ret].
+  apply noof_bind; [apply IH; rewrite !skipn_length; lia|]. intros tl n4 l4 E4.
+  apply shrinks_read_one in E4 as [Hn4 ->]. rewrite !skipn_length in Hn4.
+  apply noof_bind; [apply IH; rewrite !skipn_length; lia|]. intros tr n5 l5 E5.
+  apply noof_ret.
+Qed.
+
+Lemma noof_read_roots fuel k l :
+  (length l < fuel)%nat -> read_roots take_rf fuel k l <> OutOfFuel.
+Proof.
+  revert l; induction k as [|k IH]; intros l Hl; cbn [read_roots]; [apply noof_ret|].
+  apply noof_bind; [apply noof_read_one; exact Hl|]. intros t n1 l1 E1.
+  apply shrinks_read_one in E1 as [Hn1 ->].
+  apply noof_bind; [apply IH; rewrite skipn_length; lia|]. intros ts n2 l2 E2.
+  apply noof_ret.
+Qed.
+
+Lemma noof_pollard_parser fuel l :
+  (length l < fuel)%nat -> pollard_parser take_rf fuel l <> OutOfFuel.
+Proof.
+  intros Hl. unfold pollard_parser.
+  apply noof_bind; [apply noof_read|]. intros b1 n1 l1 E1.
+  apply pread_inv in E1 as (_ & Hk1 & _ & ->).
+  apply noof_bind; [apply noof_read|]. intros b2 n2 l2 E2.
+  apply pread_inv in E2 as (_ & Hk2 & _ & ->).
+  apply noof_bind; [apply noof_read_roots; rewrite !skipn_length; lia|]. intros ts n3 l3 E3.
+  apply noof_ret.
+Qed.
+
+(** the entry point never runs out of fuel, whatever the input *)
+Theorem decode_pollard_no_fuel_proof l : decode_pollard l <> OutOfFuel.
+Proof.
+  unfold decode_pollard, decode_pollard_gen.
+  pose proof (noof_pollard_parser (S (length l)) l (Nat.lt_succ_diag_r _)) as Hn.
+  destruct (pollard_parser take_rf (S (length l)) l) as [[[img n] l1]| |];
+    [destruct (pollard_check img); discriminate|discriminate|contradiction Hn; reflexivity].
+Qed.
+
+(** the count returned on success never exceeds the bytes available (the parser's count is the
+    number of bytes it removed from the input: [shrinks]) *)
+Theorem decode_pollard_consumed_proof l img n :
+  decode_pollard l = Ok (img, n) -> (n <= length l)%nat.
+Proof.
+  unfold decode_pollard, decode_pollard_gen. intros Heq.
+  destruct (pollard_parser take_rf (S (length l)) l) as [[[img' n'] l1]| |] eqn:E;
+    try discriminate.
+  destruct (pollard_check img'); [|discriminate]. injection Heq as <- <-.
+  apply shrinks_pollard_parser in E as [Hn _]. exact Hn.
+Qed.
+
+(** T4, strong form *)
+Theorem pollard_prefix_rejected_proof img k :
+  wf_pimage img -> (k < length (encode_pollard img))%nat ->
+  decode_pollard (firstn k (encode_pollard img)) = Err.
+Proof.
+  intros Hwf Hk.
+  destruct (codec_pollard_parser img _ Hwf (heights_bound img Hwf)) as [_ Hr].
+  specialize (Hr k Hk).
+  set (l' := firstn k (encode_pollard img)) in *.
+  assert (Hlen : (length l' <= length (encode_pollard img))%nat)
+    by (unfold l'; rewrite firstn_length; lia).
+  pose proof (decode_pollard_gen_mono _ take_rf (S (length l')) (S (length (encode_pollard img)))
+                l' ltac:(lia) (decode_pollard_no_fuel_proof l')) as Hm.
+  unfold decode_pollard. rewrite <- Hm. unfold decode_pollard_gen. rewrite Hr. reflexivity.
+Qed.
+
+(** * Failing sinks *)
+Lemma write_from_spec lim w cs :
+  (w <= lim)%nat ->
+  write_from lim w cs =
+  if Nat.leb (w + length (concat cs)) lim then Ok (w + length (concat cs))%nat else Err.
+Proof.
+  revert w; induction cs as [|c t IH]; intros w Hw; cbn [write_from concat length].
+  - rewrite Nat.add_0_r. replace (Nat.leb w lim) with true by (symmetry; apply Nat.leb_le; exact Hw).
+    reflexivity.
+  - rewrite app_length. destruct (Nat.leb (w + length c) lim) eqn:E.
+    + apply Nat.leb_le in E. rewrite IH by exact E. now rewrite Nat.add_assoc.
+    + apply Nat.leb_gt in E.
+      replace (Nat.leb (w + (length c + length (concat t))) lim) with false
+        by (symmetry; apply Nat.leb_gt; lia).
+      reflexivity.
+Qed.
+
+Lemma write_with_limit_spec lim cs :
+  write_with_limit lim cs =
+  if Nat.leb (length (concat cs)) lim then Ok (length (concat cs)) else Err.
+Proof. unfold write_with_limit. rewrite write_from_spec by lia. reflexivity. Qed.
+
+Lemma concat_chunks_ptree t : concat (chunks_ptree t) = enc_ptree t.
+Proof.
+  induction t as [d lf|d lf l r IHl IHr] using ptree_ind2; cbn [chunks_ptree concat enc_ptree].
+  - reflexivity.
+  - now rewrite concat_app, IHl, IHr.
+Qed.
+
+Lemma concat_chunks_pollard img : concat (chunks_pollard img) = encode_pollard img.
+Proof.
+  unfold chunks_pollard, encode_pollard. cbn [concat]. do 2 f_equal.
+  induction (p_roots img) as [|t ts IH]; [reflexivity|].
+  unfold enc_roots in *. cbn [flat_map]. now rewrite concat_app, IH, concat_chunks_ptree.
+Qed.
+
+(** T6 (pointer forest) *)
+Theorem pollard_write_fail_err_proof img lim :
+  ((lim < length (encode_pollard img))%nat ->
+     write_with_limit lim (chunks_pollard img) = Err) /\
+  ((length (encode_pollard img) <= lim)%nat ->
+     write_with_limit lim (chunks_pollard img) = Ok (length (encode_pollard img))).
+Proof.
+  rewrite write_with_limit_spec, concat_chunks_pollard. split; intros Hl.
+  - replace (Nat.leb (length (encode_pollard img)) lim) with false
+      by (symmetry; apply Nat.leb_gt; lia).
+    reflexivity.
+  - replace (Nat.leb (length (encode_pollard img)) lim) with true
+      by (symmetry; apply Nat.leb_le; lia).
+    reflexivity.
+Qed.
+
+(** * Chunked readers *)
+Lemma read_full_loop_spec fuel : forall need acc d cs e,
+  (need <= fuel)%nat ->
+  if Nat.leb need (length d)
+  then exists cs', read_full_loop fuel need acc (mkReader d cs e) =
+                   Ok (acc ++ firstn need d, mkReader (skipn need d) cs' e)
+  else read_full_loop fuel need acc (mkReader d cs e) = Err.
+Proof.
+  induction fuel as [|f IH]; intros need acc d cs e Hfuel.
+  - replace need with 0%nat by lia. cbn [Nat.leb read_full_loop firstn skipn].
+    exists cs. now rewrite app_nil_r.
+  - destruct need as [|m].
+    + cbn [Nat.leb read_full_loop firstn skipn]. exists cs. now rewrite app_nil_r.
+    + cbn [read_full_loop]. unfold read1. cbn [r_data r_chunks r_eofdata].
+      set (c := match cs with [] => 1%nat | c :: _ => Nat.max 1 c end).
+      assert (Hc : (1 <= c)%nat) by (unfold c; destruct cs; lia).
+      set (n := Nat.min (S m) (Nat.min c (length d))).
+      assert (Hbs : length (firstn n d) = n) by (rewrite firstn_length; lia).
+      rewrite Hbs.
+      destruct d as [|x d'].
+      * cbn [length] in n. replace n with 0%nat by lia. cbn [Nat.sub Nat.leb]. reflexivity.
+      * set (d := x :: d') in *.
+        assert (Hd : (1 <= length d)%nat) by (unfold d; cbn [length]; lia).
+        destruct (S m - n)%nat as [|need'] eqn:En.
+        -- replace (Nat.leb (S m) (length d)) with true by (symmetry; apply Nat.leb_le; lia).
+           exists (tl cs). replace n with (S m) by lia. reflexivity.
+        -- destruct (e && Nat.eqb (length (skipn n d)) 0) eqn:Eeof.
+           ++ apply andb_true_iff in Eeof as [_ Hz]. apply Nat.eqb_eq in Hz.
+              rewrite skipn_length in Hz.
+              replace (Nat.leb (S m) (length d)) with false by (symmetry; apply Nat.leb_gt; lia).
+              reflexivity.
+           ++ specialize (IH (S need') (acc ++ firstn n d) (skipn n d) (tl cs) e ltac:(lia)).
+              rewrite skipn_length in IH.
+              destruct (Nat.leb (S m) (length d)) eqn:Eleb.
+              ** apply Nat.leb_le in Eleb.
+                 replace (Nat.leb (S need') (length d - n)) with true in IH
+                   by (symmetry; apply Nat.leb_le; lia).
+                 destruct IH as [cs' IH]. exists cs'. rewrite IH.
+                 replace (S m) with (n + S need')%nat by lia.
+                 now rewrite firstn_plus, skipn_plus, app_assoc.
+              ** apply Nat.leb_gt in Eleb.
+                 replace (Nat.leb (S need') (length d - n)) with false in IH
+                   by (symmetry; apply Nat.leb_gt; lia).
+                 exact IH.
+Qed.
+
+(** [io.ReadFull] over any chunking = taking [k] bytes from the stream *)
+Lemma read_full_spec k d cs e :
+  if Nat.leb k (length d)
+  then exists cs', read_full k (mkReader d cs e) = Ok (firstn k d, mkReader (skipn k d) cs' e)
+  else read_full k (mkReader d cs e) = Err.
+Proof. apply (read_full_loop_spec k k [] d cs e). lia. Qed.
+
+Definition rel_res {A B} (Q : A -> B -> Prop) (x : res A) (y : res B) : Prop :=
+  match x, y with
+  | Ok a, Ok b => Q a b
+  | Err, Err => True
+  | OutOfFuel, OutOfFuel => True
+  | _, _ => False
+  end.
+
+Lemma rel_res_eq {A} (x y : res A) : rel_res eq x y -> x = y.
+Proof. destruct x, y; cbn [rel_res]; intros H; try contradiction; congruence. Qed.
+
+Section Sim.
+  Variables R1 R2 : Type.
+  Variable rf1 : nat -> R1 -> res (list byte * R1).
+  Variable rf2 : nat -> R2 -> res (list byte * R2).
+  Variable sim : R1 -> R2 -> Prop.
+  Hypothesis rf_sim : forall k r1 r2, sim r1 r2 ->
+    rel_res (fun x y => fst x = fst y /\ sim (snd x) (snd y)) (rf1 k r1) (rf2 k r2).
+
+  Definition psim {A} (p1 : parser R1 A) (p2 : parser R2 A) : Prop :=
+    forall r1 r2, sim r1 r2 ->
+    rel_res (fun x y => fst (fst x) = fst (fst y) /\ snd (fst x) = snd (fst y) /\
+                        sim (snd x) (snd y)) (p1 r1) (p2 r2).
+
+  Lemma psim_ret {A} (v : A) : psim (pret v) (pret v).
+  Proof. intros r1 r2 Hs. cbn. auto. Qed.
+
+  Lemma psim_read k : psim (pread rf1 k) (pread rf2 k).
+  Proof.
+    intros r1 r2 Hs. specialize (rf_sim k r1 r2 Hs). unfold pread.
+    destruct (rf1 k r1) as [[a r1']| |], (rf2 k r2) as [[b r2']| |];
+      cbn [rel_res fst snd] in *; try contradiction; try exact I.
+    destruct rf_sim as [-> Hs']. auto.
+  Qed.
+
+  Lemma psim_bind {A B} (p1 : parser R1 A) (p2 : parser R2 A)
+        (f1 : A -> parser R1 B) (f2 : A -> parser R2 B) :
+    psim p1 p2 -> (forall a, psim (f1 a) (f2 a)) -> psim (pbind p1 f1) (pbind p2 f2).
+  Proof.
+    intros Hp Hf r1 r2 Hs. specialize (Hp r1 r2 Hs). unfold pbind.
+    destruct (p1 r1) as [[[a n] r1']| |], (p2 r2) as [[[a' n'] r2']| |];
+      cbn [rel_res fst snd] in *; try contradiction; try exact I.
+    destruct Hp as (<- & <- & Hs'). specialize (Hf a r1' r2' Hs').
+    destruct (f1 a r1') as [[[b m] r1'']| |], (f2 a r2') as [[[b' m'] r2'']| |];
+      cbn [rel_res fst snd] in *; try contradiction; try exact I.
+    destruct Hf as (<- & <- & Hs''). auto.
+  Qed.
+
+  Lemma psim_read_one fuel : psim (read_one rf1 fuel) (read_one rf2 fuel).
+  Proof.
+    induction fuel as [|f IH]; cbn [read_one].
+    - intros r1 r2 _. exact I.
+    - apply psim_bind; [apply psim_read|]. intros d.
+      apply psim_bind; [apply psim_read|]. intros b1.
+      apply psim_bind; [apply psim_read|]. intros b2.
+      destruct (flag_is1 b2); [|apply psim_ret].
+      apply psim_bind; [exact IH|]. intros l.
+      apply psim_bind; [exact IH|]. intros r. apply psim_ret.
+  Qed.
+
+  Lemma psim_read_roots fuel k : psim (read_roots rf1 fuel k) (read_roots rf2 fuel k).
+  Proof.
+    induction k as [|k IH]; cbn [read_roots]; [apply psim_ret|].
+    apply psim_bind; [apply psim_read_one|]. intros t.
+    apply psim_bind; [exact IH|]. intros ts. apply psim_ret.
+  Qed.
+
+  Lemma psim_pollard_parser fuel : psim (pollard_parser rf1 fuel) (pollard_parser rf2 fuel).
+  Proof.
+    unfold pollard_parser.
+    apply psim_bind; [apply psim_read|]. intros b1.
+    apply psim_bind; [apply psim_read|]. intros b2.
+    apply psim_bind; [apply psim_read_roots|]. intros ts. apply psim_ret.
+  Qed.
+
+  Lemma psim_read_cached fuel : forall n, psim (read_cached rf1 fuel n) (read_cached rf2 fuel n).
+  Proof.
+    induction fuel as [|f IH]; intros n; cbn [read_cached].
+    - intros r1 r2 _. exact I.
+    - destruct (n =? 0); [apply psim_ret|].
+      apply psim_bind; [apply psim_read|]. intros h.
+      apply psim_bind; [apply psim_read|]. intros p.
+      apply psim_bind; [apply IH|]. intros tl. apply psim_ret.
+  Qed.
+
+  Lemma psim_read_nodes fuel : forall n, psim (read_nodes rf1 fuel n) (read_nodes rf2 fuel n).
+  Proof.
+    induction fuel as [|f IH]; intros n; cbn [read_nodes].
+    - intros r1 r2 _. exact I.
+    - destruct (n =? 0); [apply psim_ret|].
+      apply psim_bind; [apply psim_read|]. intros p.
+      apply psim_bind; [apply psim_read|]. intros lb.
+      apply psim_bind; [apply IH|]. intros tl. apply psim_ret.
+  Qed.
+
+  Lemma psim_map_parser fuel : psim (map_parser rf1 fuel) (map_parser rf2 fuel).
+  Proof.
+    unfold map_parser.
+    apply psim_bind; [apply psim_read|]. intros rb.
+    apply psim_bind; [apply psim_read|]. intros nlb.
+    apply psim_bind; [apply psim_read|]. intros ncb.
+    apply psim_bind; [apply psim_read_cached|]. intros cs.
+    apply psim_bind; [apply psim_read|]. intros nnb.
+    apply psim_bind; [apply psim_read_nodes|]. intros ns. apply psim_ret.
+  Qed.
+
+  Lemma decode_pollard_gen_sim fuel r1 r2 :
+    sim r1 r2 -> decode_pollard_gen rf1 fuel r1 = decode_pollard_gen rf2 fuel r2.
+  Proof.
+    intros Hs. pose proof (psim_pollard_parser fuel r1 r2 Hs) as Hp. unfold decode_pollard_gen.
+    destruct (pollard_parser rf1 fuel r1) as [[[a n] r1']| |],
+             (pollard_parser rf2 fuel r2) as [[[a' n'] r2']| |];
+      cbn [rel_res fst snd] in Hp; try contradiction; try reflexivity.
+    destruct Hp as (<- & <- & _). reflexivity.
+  Qed.
+
+  Lemma decode_map_gen_sim fuel r1 r2 :
+    sim r1 r2 -> decode_map_gen rf1 fuel r1 = decode_map_gen rf2 fuel r2.
+  Proof.
+    intros Hs. pose proof (psim_map_parser fuel r1 r2 Hs) as Hp. unfold decode_map_gen.
+    destruct (map_parser rf1 fuel r1) as [[[a n] r1']| |],
+             (map_parser rf2 fuel r2) as [[[a' n'] r2']| |];
+      cbn [rel_res fst snd] in Hp; try contradiction; try reflexivity.
+    destruct Hp as (<- & <- & _). reflexivity.
+  Qed.
+End Sim.
+
+Lemma read_full_sim k (r : reader) (l : list byte) :
+  r_data r = l ->
+  rel_res (fun x y => fst x = fst y /\ r_data (snd x) = snd y) (read_full k r) (take_rf k l).
+Proof.
+  intros <-. destruct r as [d cs e]. cbn [r_data]. pose proof (read_full_spec k d cs e) as Hs.
+  unfold take_rf. destruct (Nat.leb k (length d)).
+  - destruct Hs as [cs' ->]. cbn. auto.
+  - rewrite Hs. exact I.
+Qed.
+
+(** T3 *)
+Theorem pollard_chunk_independent_proof d cs e :
+  decode_pollard_chunked (mkReader d cs e) = decode_pollard d.
+Proof.
+  unfold decode_pollard_chunked, decode_pollard. cbn [r_data].
+  apply decode_pollard_gen_sim with (sim := fun r l => r_data r = l); [|reflexivity].
+  intros k r1 r2 Hs. apply read_full_sim. exact Hs.
+Qed.
+
+Theorem map_chunk_independent_proof d cs e :
+  decode_map_chunked (mkReader d cs e) = decode_map d.
+Proof.
+  unfold decode_map_chunked, decode_map. cbn [r_data].
+  apply decode_map_gen_sim with (sim := fun r l => r_data r = l); [|reflexivity].
+  intros k r1 r2 Hs. apply read_full_sim. exact Hs.
+Qed.
+
+(** * The map forest *)
+Lemma bytes_eqb_eq a b : bytes_eqb a b = true <-> a = b.
+Proof.
+  revert b; induction a as [|x a IH]; intros [|y b]; cbn [bytes_eqb]; split; intros H;
+    try reflexivity; try discriminate.
+  - apply andb_true_iff in H as [Hx Ha]. apply N.eqb_eq in Hx. apply IH in Ha. congruence.
+  - injection H as -> ->. apply andb_true_iff. split; [apply N.eqb_refl|now apply IH].
+Qed.
+
+Section AssocFacts.
+  Variables K V : Type.
+  Variable eqb : K -> K -> bool.
+  Hypothesis eqb_eq : forall a b, eqb a b = true <-> a = b.
+
+  Lemma put_fresh k v (m : list (K * V)) : ~ In k (map fst m) -> put eqb k v m = m ++ [(k, v)].
+  Proof.
+    induction m as [|[k' v'] m IH]; intros Hn; cbn [put app]; [reflexivity|].
+    cbn [map fst In] in Hn.
+    destruct (eqb k k') eqn:E.
+    - apply eqb_eq in E. subst. exfalso. apply Hn. now left.
+    - rewrite IH; [reflexivity|]. intros Hin. apply Hn. now right.
+  Qed.
+
+  Lemma put_all_from (l m : list (K * V)) :
+    NoDup (map fst (m ++ l)) ->
+    fold_left (fun m kv => put eqb (fst kv) (snd kv) m) l m = m ++ l.
+  Proof.
+    revert m; induction l as [|[k v] l IH]; intros m Hnd; cbn [fold_left fst snd].
+    - now rewrite app_nil_r.
+    - rewrite put_fresh.
+      + rewrite IH; [now rewrite <- app_assoc|]. now rewrite <- app_assoc.
+      + rewrite map_app in Hnd. cbn [map fst] in Hnd. apply NoDup_remove_2 in Hnd.
+        intros Hin. apply Hnd. apply in_or_app. now left.
+  Qed.
+
+  (** a writer's map has no duplicate keys: the reader's [Put]s rebuild the same list *)
+  Lemma put_all_nodup (l : list (K * V)) : NoDup (map fst l) -> put_all eqb l = l.
+  Proof. intros Hnd. unfold put_all. now rewrite put_all_from. Qed.
+
+  Lemma assoc_In_nodup k v (m : list (K * V)) :
+    NoDup (map fst m) -> In (k, v) m -> assoc eqb k m = Some v.
+  Proof.
+    induction m as [|[k' v'] m IH]; intros Hnd Hin; [contradiction|].
+    cbn [assoc]. cbn [map fst] in Hnd. inversion Hnd as [|? ? Hnk Hnd']; subst.
+    destruct Hin as [Heq|Hin].
+    - injection Heq as -> ->. replace (eqb k k) with true by (symmetry; now apply eqb_eq).
+      reflexivity.
+    - destruct (eqb k k') eqn:E.
+      + apply eqb_eq in E. subst. exfalso. apply Hnk.
+        change k' with (fst (k', v)). now apply in_map.
+      + now apply IH.
+  Qed.
+
+  Lemma assoc_Some_In k v (m : list (K * V)) : assoc eqb k m = Some v -> In (k, v) m.
+  Proof.
+    induction m as [|[k' v'] m IH]; cbn [assoc]; [discriminate|].
+    destruct (eqb k k') eqn:E.
+    - intros Heq. injection Heq as ->. apply eqb_eq in E. subst. now left.
+    - intros Heq. right. now apply IH.
+  Qed.
+End AssocFacts.
+
+Lemma count_int_small x : x < 2 ^ 63 -> count_int x = x.
+Proof. intros Hx. unfold count_int. now replace (x <? 2 ^ 63) with true by (symmetry; now apply N.ltb_lt). Qed.
+
+Lemma of_nat_S_eqb0 n : (N.of_nat (S n) =? 0) = false.
+Proof. apply N.eqb_neq. lia. Qed.
+
+Lemma pred_of_nat_S n : N.pred (N.of_nat (S n)) = N.of_nat n.
+Proof. lia. Qed.
+
+Lemma codec_read_cached cs : forall fuel,
+  Forall (fun e => length (fst e) = 32%nat /\ snd e < 2 ^ 64) cs ->
+  (length cs < fuel)%nat ->
+  codec (read_cached take_rf fuel (N.of_nat (length cs))) (enc_cached cs) cs.
+Proof.
+  induction cs as [|[h p] cs IH]; intros fuel Hwf Hfuel; (destruct fuel as [|f]; [lia|]);
+    cbn [length] in *.
+  - cbn [read_cached]. change (N.of_nat 0 =? 0) with true. cbv iota. apply codec_ret.
+  - cbn [read_cached]. rewrite of_nat_S_eqb0, pred_of_nat_S.
+    inversion Hwf as [|? ? [Hh Hp] Hwf']; subst. cbn [fst snd] in Hh, Hp.
+    unfold enc_cached. cbn [flat_map fst snd]. fold (enc_cached cs).
+    apply codec_eq with (e' := h ++ u64le p ++ enc_cached cs ++ []);
+      [now rewrite app_nil_r, app_assoc|].
+    apply codec_bind with (v1 := h); [apply codec_read; exact Hh|].
+    apply codec_bind with (v1 := u64le p); [apply codec_read, u64le_length|].
+    apply codec_bind with (v1 := cs); [apply IH; [exact Hwf'|lia]|].
+    rewrite le_value_u64le by exact Hp. apply codec_ret.
+Qed.
+
+Lemma nth_app_exact {A} (a : list A) x d n : length a = n -> nth n (a ++ [x]) d = x.
+Proof. intros <-. rewrite app_nth2 by lia. now rewrite Nat.sub_diag. Qed.
+
+Lemma b2n_eqb1 b : (b2n b =? 1) = b.
+Proof. destruct b; reflexivity. Qed.
+
+Lemma codec_read_nodes ns : forall fuel,
+  Forall (fun e => fst e < 2 ^ 64 /\ length (fst (snd e)) = 32%nat) ns ->
+  (length ns < fuel)%nat ->
+  codec (read_nodes take_rf fuel (N.of_nat (length ns))) (enc_nodes ns) ns.
+Proof.
+  induction ns as [|[p [h b]] ns IH]; intros fuel Hwf Hfuel; (destruct fuel as [|f]; [lia|]);
+    cbn [length] in *.
+  - cbn [read_nodes]. change (N.of_nat 0 =? 0) with true. cbv iota. apply codec_ret.
+  - cbn [read_nodes]. rewrite of_nat_S_eqb0, pred_of_nat_S.
+    inversion Hwf as [|? ? [Hp Hh] Hwf']; subst. cbn [fst snd] in Hh, Hp.
+    unfold enc_nodes. cbn [flat_map fst snd]. fold (enc_nodes ns).
+    apply codec_eq with (e' := u64le p ++ (h ++ [b2n b]) ++ enc_nodes ns ++ []);
+      [now rewrite app_nil_r, <- !app_assoc|].
+    apply codec_bind with (v1 := u64le p); [apply codec_read, u64le_length|].
+    apply codec_bind with (v1 := h ++ [b2n b]);
+      [apply codec_read; rewrite app_length, Hh; reflexivity|].
+    apply codec_bind with (v1 := ns); [apply IH; [exact Hwf'|lia]|].
+    rewrite le_value_u64le by exact Hp.
+    rewrite firstn_app_exact by exact Hh. rewrite nth_app_exact by exact Hh.
+    rewrite b2n_eqb1. apply codec_ret.
+Qed.
+
+Lemma N_eqb_eq' a b : N.eqb a b = true <-> a = b.
+Proof. apply N.eqb_eq. Qed.
+
+Lemma codec_map_parser img fuel :
+  wf_mimage img ->
+  (length (m_cached img) < fuel)%nat -> (length (m_nodes img) < fuel)%nat ->
+  codec (map_parser take_rf fuel) (encode_map img) img.
+Proof.
+  intros (Hrows & Hnl & Hnc & Hnn & Hwc & Hwn & Hdc & Hdn & _) Hfc Hfn.
+  unfold map_parser, encode_map.
+  apply codec_bind with (v1 := [m_rows img]); [apply codec_read; reflexivity|].
+  apply codec_bind with (v1 := u64le (m_numleaves img)); [apply codec_read, u64le_length|].
+  apply codec_bind with (v1 := u64le (N.of_nat (length (m_cached img))));
+    [apply codec_read, u64le_length|].
+  rewrite le_value_u64le by lia. rewrite count_int_small by exact Hnc.
+  apply codec_bind with (v1 := m_cached img); [apply codec_read_cached; assumption|].
+  apply codec_bind with (v1 := u64le (N.of_nat (length (m_nodes img))));
+    [apply codec_read, u64le_length|].
+  rewrite le_value_u64le by lia. rewrite count_int_small by exact Hnn.
+  apply codec_eq with (e' := enc_nodes (m_nodes img) ++ []); [symmetry; apply app_nil_r|].
+  apply codec_bind with (v1 := m_nodes img); [apply codec_read_nodes; assumption|].
+  rewrite le_value_u64le by exact Hnl.
+  rewrite (put_all_nodup _ _ bytes_eqb bytes_eqb_eq) by exact Hdc.
+  rewrite (put_all_nodup _ _ N.eqb N_eqb_eq') by exact Hdn.
+  cbn [hd]. destruct img as [rows nl cs ns]. apply codec_ret.
+Qed.
+
+Lemma map_check_wf img : wf_mimage img -> map_check img = true.
+Proof.
+  intros (_ & _ & _ & _ & _ & _ & _ & Hdn & Hcons). unfold map_check.
+  apply forallb_forall. intros [h p] Hin. cbn [fst snd].
+  destruct (Hcons h p Hin) as [b Hb].
+  rewrite (assoc_In_nodup _ _ N.eqb N_eqb_eq' p (h, b)) by assumption.
+  cbn [fst]. now apply bytes_eqb_eq.
+Qed.
+
+Lemma enc_cached_length cs : (length cs <= length (enc_cached cs))%nat.
+Proof.
+  induction cs as [|[h p] cs IH]; [cbn; lia|].
+  unfold enc_cached in *. cbn [flat_map length fst snd]. rewrite !app_length, u64le_length. lia.
+Qed.
+
+Lemma enc_nodes_length ns : (length ns <= length (enc_nodes ns))%nat.
+Proof.
+  induction ns as [|[p [h b]] ns IH]; [cbn; lia|].
+  unfold enc_nodes in *. cbn [flat_map length fst snd]. rewrite !app_length, u64le_length. lia.
+Qed.
+
+Lemma map_fuel_bound img :
+  (length (m_cached img) < S (length (encode_map img)))%nat /\
+  (length (m_nodes img) < S (length (encode_map img)))%nat.
+Proof.
+  unfold encode_map. rewrite !app_length.
+  pose proof (enc_cached_length (m_cached img)). pose proof (enc_nodes_length (m_nodes img)).
+  lia.
+Qed.
+
+(** T2 *)
+Theorem map_roundtrip_proof img :
+  wf_mimage img -> decode_map (encode_map img) = Ok (img, length (encode_map img)).
+Proof.
+  intros Hwf. unfold decode_map, decode_map_gen.
+  destruct (map_fuel_bound img) as [Hc Hn].
+  destruct (codec_map_parser img _ Hwf Hc Hn) as [Hp _].
+  specialize (Hp []). rewrite app_nil_r in Hp. rewrite Hp.
+  now rewrite map_check_wf.
+Qed.
+
+Lemma shrinks_read_cached fuel : forall n, shrinks (read_cached take_rf fuel n).
+Proof.
+  induction fuel as [|f IH]; intros n; cbn [read_cached].
+  - intros l a k l' Heq. discriminate.
+  - destruct (n =? 0); [apply shrinks_ret|].
+    apply shrinks_bind; [apply shrinks_read|]. intros h.
+    apply shrinks_bind; [apply shrinks_read|]. intros p.
+    apply shrinks_bind; [apply IH|]. intros tl. apply shrinks_ret.
+Qed.
+
+Lemma shrinks_read_nodes fuel : forall n, shrinks (read_nodes take_rf fuel n).
+Proof.
+  induction fuel as [|f IH]; intros n; cbn [read_nodes].
+  - intros l a k l' Heq. discriminate.
+  - destruct (n =? 0); [apply shrinks_ret|].
+    apply shrinks_bind; [apply shrinks_read|]. intros p.
+    apply shrinks_bind; [apply shrinks_read|]. intros lb.
+    apply shrinks_bind; [apply IH|]. intros tl. apply shrinks_ret.
+Qed.
+
+Lemma shrinks_map_parser fuel : shrinks (map_parser take_rf fuel).
+Proof.
+  unfold map_parser.
+  apply shrinks_bind; [apply shrinks_read|]. intros rb.
+  apply shrinks_bind; [apply shrinks_read|]. intros nlb.
+  apply shrinks_bind; [apply shrinks_read|]. intros ncb.
+  apply shrinks_bind; [apply shrinks_read_cached|]. intros cs.
+  apply shrinks_bind; [apply shrinks_read|]. intros nnb.
+  apply shrinks_bind; [apply shrinks_read_nodes|]. intros ns. apply shrinks_ret.
+Qed.
+
+Lemma noof_read_cached fuel : forall n l,
+  (length l < fuel)%nat -> read_cached take_rf fuel n l <> OutOfFuel.
+Proof.
+  induction fuel as [|f IH]; intros n l Hl; [lia|]. cbn [read_cached].
+  destruct (n =? 0); [apply noof_ret|].
+  apply noof_bind; [apply noof_read|]. intros h n1 l1 E1.
+  apply pread_inv in E1 as (_ & Hk1 & _ & ->).
+  apply noof_bind; [apply noof_read|]. intros p n2 l2 E2.
+  apply pread_inv in E2 as (_ & Hk2 & _ & ->).
+  rewrite !skipn_length in *.
+  apply noof_bind; [apply IH; rewrite !skipn_length; lia|]. intros tl n3 l3 E3.
+  apply noof_ret.
+Qed.
+
+Lemma noof_read_nodes fuel : forall n l,
+  (length l < fuel)%nat -> read_nodes take_rf fuel n l <> OutOfFuel.
+Proof.
+  induction fuel as [|f IH]; intros n l Hl; [lia|]. cbn [read_nodes].
+  destruct (n =? 0); [apply noof_ret|].
+  apply noof_bind; [apply noof_read|]. intros p n1 l1 E1.
+  apply pread_inv in E1 as (_ & Hk1 & _ & ->).
+  apply noof_bind; [apply noof_read|]. intros lb n2 l2 E2.
+  apply pread_inv in E2 as (_ & Hk2 & _ & ->).
+  rewrite !skipn_length in *.
+  apply noof_bind; [apply IH; rewrite !skipn_length; lia|]. intros tl n3 l3 E3.
+  apply noof_ret.
+Qed.
+
+Lemma noof_map_parser fuel l :
+  (length l < fuel)%nat -> map_parser take_rf fuel l <> OutOfFuel.
+Proof.
+  intros Hl. unfold map_parser.
+  apply noof_bind; [apply noof_read|]. intros rb n1 l1 E1.
+  apply pread_inv in E1 as (_ & Hk1 & _ & ->).
+  apply noof_bind; [apply noof_read|]. intros nlb n2 l2 E2.
+  apply pread_inv in E2 as (_ & Hk2 & _ & ->).
+  apply noof_bind; [apply noof_read|]. intros ncb n3 l3 E3.
+  apply pread_inv in E3 as (_ & Hk3 & _ & ->).
+  apply noof_bind; [apply noof_read_cached; rewrite !skipn_length; lia|]. intros cs n4 l4 E4.
+  apply shrinks_read_cached in E4 as [Hn4 ->].
+  apply noof_bind; [apply noof_read|]. intros nnb n5 l5 E5.
+  apply pread_inv in E5 as (_ & Hk5 & _ & ->).
+  apply noof_bind; [apply noof_read_nodes; rewrite !skipn_length; lia|]. intros ns n6 l6 E6.
+  apply noof_ret.
+Qed.
+
+Theorem decode_map_no_fuel_proof l : decode_map l <> OutOfFuel.
+Proof.
+  unfold decode_map, decode_map_gen.
+  pose proof (noof_map_parser (S (length l)) l (Nat.lt_succ_diag_r _)) as Hn.
+  destruct (map_parser take_rf (S (length l)) l) as [[[img n] l1]| |];
+    [destruct (map_check img); discriminate|discriminate|contradiction Hn; reflexivity].
+Qed.
+
+Theorem decode_map_consumed_proof l img n :
+  decode_map l = Ok (img, n) -> (n <= length l)%nat.
+Proof.
+  unfold decode_map, decode_map_gen. intros Heq.
+  destruct (map_parser take_rf (S (length l)) l) as [[[img' n'] l1]| |] eqn:E;
+    try discriminate.
+  destruct (map_check img'); [|discriminate]. injection Heq as <- <-.
+  apply shrinks_map_parser in E as [Hn _]. exact Hn.
+Qed.
+
+(** T4 (map forest) *)
+Theorem map_prefix_rejected_proof img k :
+  wf_mimage img -> (k < length (encode_map img))%nat ->
+  decode_map (firstn k (encode_map img)) = Err.
+Proof.
+  intros Hwf Hk. destruct (map_fuel_bound img) as [Hc Hn].
+  destruct (codec_map_parser img _ Hwf Hc Hn) as [_ Hr].
+  specialize (Hr k Hk).
+  set (l' := firstn k (encode_map img)) in *.
+  assert (Hlen : (length l' <= length (encode_map img))%nat)
+    by (unfold l'; rewrite firstn_length; lia).
+  pose proof (decode_map_gen_mono _ take_rf (S (length l')) (S (length (encode_map img)))
+                l' ltac:(lia) (decode_map_no_fuel_proof l')) as Hm.
+  unfold decode_map. rewrite <- Hm. unfold decode_map_gen. rewrite Hr. reflexivity.
+Qed.
+
+Lemma concat_chunks_map img : concat (chunks_map img) = encode_map img.
+Proof.
+  unfold chunks_map, encode_map. cbn [concat]. rewrite concat_app. cbn [concat app].
+  do 3 f_equal. f_equal.
+  - induction (m_cached img) as [|[h p] cs IH]; [reflexivity|].
+    unfold enc_cached in *. cbn [flat_map concat app fst snd]. rewrite IH.
+    now rewrite <- app_assoc.
+  - f_equal. induction (m_nodes img) as [|[p [h b]] ns IH]; [reflexivity|].
+    unfold enc_nodes in *. cbn [flat_map concat app fst snd]. rewrite IH.
+    now rewrite <- !app_assoc.
+Qed.
+
+(** T6 (map forest) *)
+Theorem map_write_fail_err_proof img lim :
+  ((lim < length (encode_map img))%nat -> write_with_limit lim (chunks_map img) = Err) /\
+  ((length (encode_map img) <= lim)%nat ->
+     write_with_limit lim (chunks_map img) = Ok (length (encode_map img))).
+Proof.
+  rewrite write_with_limit_spec, concat_chunks_map. split; intros Hl.
+  - replace (Nat.leb (length (encode_map img)) lim) with false
+      by (symmetry; apply Nat.leb_gt; lia).
+    reflexivity.
+  - replace (Nat.leb (length (encode_map img)) lim) with true
+      by (symmetry; apply Nat.leb_le; lia).
+    reflexivity.
+Qed.
+
+(** * The boolean well-formedness checks are sound *)
+Lemma wf_pimageb_sound img : wf_pimageb img = true -> wf_pimage img.
+Proof.
+  unfold wf_pimageb, wf_pimage. intros Hb.
+  repeat (apply andb_true_iff in Hb as [Hb ?]).
+  repeat split.
+  - now apply N.ltb_lt.
+  - now apply N.leb_le.
+  - now apply N.ltb_lt.
+  - now apply Nat.eqb_eq.
+  - apply Forall_forall. intros t Ht. apply wf_ptreeb_sound.
+    match goal with Hf : forallb _ _ = true |- _ => exact (proj1 (forallb_forall _ _) Hf t Ht) end.
+  - now apply N.eqb_eq.
+Qed.
+
+Lemma mem_bytes_In x l : mem_bytes x l = true <-> In x l.
+Proof.
+  induction l as [|y l IH]; cbn [mem_bytes In]; [split; [discriminate|contradiction]|].
+  rewrite orb_true_iff, IH, bytes_eqb_eq. split; intros [H|H]; auto.
+Qed.
+
+Lemma nodup_bytesb_sound l : nodup_bytesb l = true -> NoDup l.
+Proof.
+  induction l as [|x l IH]; cbn [nodup_bytesb]; intros Hb; constructor.
+  - apply andb_true_iff in Hb as [Hm _]. intros Hin. apply mem_bytes_In in Hin.
+    rewrite Hin in Hm. discriminate.
+  - apply andb_true_iff in Hb as [_ Hn]. now apply IH.
+Qed.
+
+Lemma memN_In x l : memN x l = true <-> In x l.
+Proof.
+  induction l as [|y l IH]; cbn [memN In]; [split; [discriminate|contradiction]|].
+  rewrite orb_true_iff, IH, N.eqb_eq. split; intros [H|H]; auto.
+Qed.
+
+Lemma nodupNb_sound l : nodupNb l = true -> NoDup l.
+Proof.
+  induction l as [|x l IH]; cbn [nodupNb]; intros Hb; constructor.
+  - apply andb_true_iff in Hb as [Hm _]. intros Hin. apply memN_In in Hin.
+    rewrite Hin in Hm. discriminate.
+  - apply andb_true_iff in Hb as [_ Hn]. now apply IH.
+Qed.
+
+Lemma wf_mimageb_sound img : wf_mimageb img = true -> wf_mimage img.
+Proof.
+  unfold wf_mimageb, wf_mimage. intros Hb.
+  repeat (apply andb_true_iff in Hb as [Hb ?]).
+  match goal with Hc : map_check img = true |- _ => rename Hc into Hchk end.
+  repeat split.
+  - now apply N.ltb_lt.
+  - now apply N.ltb_lt.
+  - now apply N.ltb_lt.
+  - now apply N.ltb_lt.
+  - apply Forall_forall. intros e He.
+    match goal with
+      Hf : forallb _ (m_cached img) = true |- _ =>
+        pose proof (proj1 (forallb_forall _ _) Hf e He) as Hx
+    end.
+    apply andb_true_iff in Hx as [Hx1 Hx2]. split; [now apply Nat.eqb_eq|now apply N.ltb_lt].
+  - apply Forall_forall. intros e He.
+    match goal with
+      Hf : forallb _ (m_nodes img) = true |- _ =>
+        pose proof (proj1 (forallb_forall _ _) Hf e He) as Hx
+    end.
+    apply andb_true_iff in Hx as [Hx1 Hx2]. split; [now apply N.ltb_lt|now apply Nat.eqb_eq].
+  - now apply nodup_bytesb_sound.
+  - now apply nodupNb_sound.
+  - intros h p Hin. unfold map_check in Hchk.
+    pose proof (proj1 (forallb_forall _ _) Hchk (h, p) Hin) as Hx. cbn [fst snd] in Hx.
+    destruct (assoc N.eqb p (m_nodes img)) as [[h' b]|] eqn:Ea; [|discriminate].
+    cbn [fst] in Hx. apply bytes_eqb_eq in Hx. subst h'. exists b.
+    apply (assoc_Some_In _ _ N.eqb N_eqb_eq'). exact Ea.
+Qed.
+
+(** with distinct 12-byte prefixes the node map holds every record that enters it *)
+Lemma dedup_bytes_nodup l : NoDup l -> dedup_bytes l = l.
+Proof.
+  induction 1 as [|x l Hx Hl IH]; cbn [dedup_bytes]; [reflexivity|].
+  destruct (mem_bytes x l) eqn:E; [apply mem_bytes_In in E; contradiction|]. now rewrite IH.
+Qed.
+
+Lemma nodemap_size_nodup img :
+  NoDup (pimage_minis img) -> nodemap_size img = count_leaves img.
+Proof.
+  intros Hnd. unfold nodemap_size, count_leaves. rewrite dedup_bytes_nodup by exact Hnd.
+  unfold pimage_minis. apply map_length.
+Qed.
